@@ -24,3 +24,17 @@ def run(ctx, rep) -> None:
     for p in PROFILES:
         scs += H.gen_scenarios(ctx.seed, n // len(PROFILES), p)
     _family.run_traces(rep, scs, '+'.join(PROFILES), nontrivial=lambda f: bool(f & FEATURES))
+    # daemons and timers hold the finalizer too: the daemon histories of C09, judged by DaemonMonitor.tla
+    # (clause: the finalizer is not withdrawn under a live matching daemon before backoff + timeout have passed)
+    from concurrent.futures import ProcessPoolExecutor
+    from vf import daemons as D
+    dscs = D.gen_scenarios(ctx.seed + 1, 120 if ctx.quick else 3000)
+    with ProcessPoolExecutor(16) as ex:
+        dtraces = list(ex.map(D.run_scenario, dscs, chunksize=4))
+    dv = D.judge(dtraces, rep)
+    rep.evaluations += len(dtraces); rep.traces += len(dtraces)
+    for t in dtraces:
+        if any(e['ev'] == 'released' for e in t['events']):
+            rep.nontrivial([t['conf'], [{k: v for k, v in e.items() if k != 't'} for e in t['events']]])
+        if dv[t['id']] == 'finalizer_released_while_daemon_alive':
+            rep.violation(f'{t["id"]}: the finalizer was released while a matching daemon was alive and not yet abandoned', payload=t)
